@@ -10,13 +10,13 @@ def spec():
 
 def run(tier, seed):
     return e2eprop.run(PROP, ["faults"], tier, seed, ["faults_scenarios"], ["faults_sigs"],
-                       "one evaluation = one history in mode S (2 threads, 2 loggers x 3 recording sinks). Scenarios 0..167 of every process ENUMERATE, for a "
+                       "one evaluation = one history in mode S (2 threads, 2 loggers x 3 recording sinks). Scenarios 0..257 of every process ENUMERATE, for a "
                        "history of 12 statements, every (position, fault kind) with kinds {argument missing, spec/type mismatch, user formatter throwing "
-                       "std::runtime_error / a non-std type / an int, LOG_BACKTRACE without init_backtrace, harmless user type} and every (sink, call index "
-                       "0..13) for a throwing write_log and for a throwing flush_sink; later scenarios sample 24-statement histories with 1-4 simultaneous "
+                       "std::runtime_error / a non-std type / an int, LOG_BACKTRACE without init_backtrace, harmless user type, the named-placeholder forms of these} and every (sink, call index "
+                       "0..13) for a throwing write_log, for a flush_sink that throws once and for one that throws from that call on for good; later scenarios sample 24-statement histories with 1-4 simultaneous "
                        "faults plus a sink fault. Offline: every non-faulty statement on every sink of its logger once and in order; a faulty one absent or "
                        "present with the explanatory text; a sink throw may cost exactly one statement, only on that sink and the sinks after it; >= 1 "
-                       "notifier message per fault; flush_log() afterwards returns and a probe statement is processed (idle-cycle / no-progress verdicts). "
+                       "notifier message per fault; flush_log() afterwards returns, every OTHER sink has a completed flush after its last write at that moment, and a probe statement is processed (idle-cycle / no-progress verdicts). "
                        "distinct = enumerated fault positions + sampled schedule signatures",
                        ["statements are single-line; a sink throw is never scheduled inside a backtrace replay"],
                        level="fault_enumeration")
